@@ -116,6 +116,8 @@ def run(ctx: RuleContext, p: Program) -> None:
     ctx.try_rule(rule_sp_sem, p, 'SP-SEM', 5 if ctx.tier == 'quick' else 7)
     from . import grammar_rules
     ctx.try_rule(grammar_rules.rule_spacing_re, p, 'SPACING-RE')
+    from . import round4
+    ctx.try_rule(round4.rule_memo, p, 'MEMO')
     ctx.not_decided += ['which invisible tokens neighbour a model at run time', 'that adjacent models see the same run (follows from '
                         'the mirror-image getters, not observed)']
     ctx.assumptions += ['TokenStore.get_prev/get_next/splice/insert semantics (C07)']
